@@ -1,0 +1,409 @@
+//! Verification hooks. Compiled only with `--cfg falcon_rust_verif`; never part of a
+//! normal build. Everything here is either a thin re-export of a crate-private
+//! function (so an external harness can drive it with chosen inputs) or a thread-local
+//! switch that is inert unless the harness arms it.
+
+use std::cell::{Cell, RefCell};
+
+use num_complex::Complex64;
+use rand::{rngs::ThreadRng, RngCore};
+
+use crate::{
+    falcon::{FalconParameters, PublicKey, SecretKey},
+    falcon_field::Felt,
+    fast_fft::FastFft,
+    ffsampling::{ffldl, gram, normalize_tree, LdlTree},
+    inverse::Inverse,
+    polynomial::Polynomial,
+};
+
+// ---------------------------------------------------------------------------------
+// signer environment: RNG interposition, forced retries, leaf trace
+// ---------------------------------------------------------------------------------
+
+thread_local! {
+    static ENV_RNG: RefCell<Option<Box<dyn RngCore>>> = const { RefCell::new(None) };
+    static FORCE_NORM_RETRIES: Cell<u32> = const { Cell::new(0) };
+    static FORCE_COMPRESS_RETRIES: Cell<u32> = const { Cell::new(0) };
+    static NORM_TESTS: Cell<u64> = const { Cell::new(0) };
+    static COMPRESS_TESTS: Cell<u64> = const { Cell::new(0) };
+    static LEAF_TRACE: RefCell<Option<Vec<(f64, f64, i16)>>> = const { RefCell::new(None) };
+}
+
+/// Install an RNG that `sign` (on this thread) uses instead of `thread_rng`.
+pub fn install_rng(rng: Box<dyn RngCore>) {
+    ENV_RNG.with(|e| *e.borrow_mut() = Some(rng));
+}
+
+/// Remove the installed RNG (if any) and hand it back.
+pub fn uninstall_rng() -> Option<Box<dyn RngCore>> {
+    ENV_RNG.with(|e| e.borrow_mut().take())
+}
+
+/// Wrapper placed around the signer's `ThreadRng`. Delegates to the installed RNG
+/// when there is one and to the real generator otherwise.
+pub struct SignRng {
+    inner: ThreadRng,
+}
+
+impl SignRng {
+    pub fn wrap(inner: ThreadRng) -> Self {
+        SignRng { inner }
+    }
+}
+
+impl RngCore for SignRng {
+    fn next_u32(&mut self) -> u32 {
+        let r = ENV_RNG.with(|e| e.borrow_mut().as_mut().map(|r| r.next_u32()));
+        match r {
+            Some(v) => v,
+            None => self.inner.next_u32(),
+        }
+    }
+    fn next_u64(&mut self) -> u64 {
+        let r = ENV_RNG.with(|e| e.borrow_mut().as_mut().map(|r| r.next_u64()));
+        match r {
+            Some(v) => v,
+            None => self.inner.next_u64(),
+        }
+    }
+    fn fill_bytes(&mut self, dest: &mut [u8]) {
+        let done = ENV_RNG.with(|e| {
+            e.borrow_mut()
+                .as_mut()
+                .map(|r| r.fill_bytes(dest))
+                .is_some()
+        });
+        if !done {
+            self.inner.fill_bytes(dest)
+        }
+    }
+    fn try_fill_bytes(&mut self, dest: &mut [u8]) -> Result<(), rand::Error> {
+        self.fill_bytes(dest);
+        Ok(())
+    }
+}
+
+/// Force the next `norm` norm tests and the next `compress` compression results of
+/// `sign` on this thread to fail (so both retry branches are taken).
+pub fn arm_retries(norm: u32, compress: u32) {
+    FORCE_NORM_RETRIES.with(|c| c.set(norm));
+    FORCE_COMPRESS_RETRIES.with(|c| c.set(compress));
+}
+
+/// (norm tests, compression attempts) executed by `sign` on this thread since the
+/// last call; resets the counters.
+pub fn take_loop_counters() -> (u64, u64) {
+    (
+        NORM_TESTS.with(|c| c.replace(0)),
+        COMPRESS_TESTS.with(|c| c.replace(0)),
+    )
+}
+
+pub fn fault_norm(length_squared: f64) -> f64 {
+    NORM_TESTS.with(|c| c.set(c.get() + 1));
+    let k = FORCE_NORM_RETRIES.with(|c| c.get());
+    if k > 0 {
+        FORCE_NORM_RETRIES.with(|c| c.set(k - 1));
+        f64::INFINITY
+    } else {
+        length_squared
+    }
+}
+
+pub fn fault_compress(maybe_s: Option<Vec<u8>>) -> Option<Vec<u8>> {
+    COMPRESS_TESTS.with(|c| c.set(c.get() + 1));
+    let k = FORCE_COMPRESS_RETRIES.with(|c| c.get());
+    if k > 0 {
+        FORCE_COMPRESS_RETRIES.with(|c| c.set(k - 1));
+        None
+    } else {
+        maybe_s
+    }
+}
+
+/// Start recording (centre, width, result) of every leaf-level sampler call on this
+/// thread.
+pub fn arm_leaf_trace() {
+    LEAF_TRACE.with(|t| *t.borrow_mut() = Some(Vec::new()));
+}
+
+/// Stop recording and return what was recorded.
+pub fn take_leaf_trace() -> Vec<(f64, f64, i16)> {
+    LEAF_TRACE.with(|t| t.borrow_mut().take().unwrap_or_default())
+}
+
+pub fn record_leaf(mu: f64, sigma: f64, z: i16) {
+    LEAF_TRACE.with(|t| {
+        if let Some(v) = t.borrow_mut().as_mut() {
+            v.push((mu, sigma, z));
+        }
+    });
+}
+
+// ---------------------------------------------------------------------------------
+// pure wrappers
+// ---------------------------------------------------------------------------------
+
+pub fn compress(v: &[i16], byte_length: usize) -> Option<Vec<u8>> {
+    crate::encoding::compress(v, byte_length)
+}
+
+pub fn decompress(x: &[u8], n: usize) -> Option<Vec<i16>> {
+    crate::encoding::decompress(x, n)
+}
+
+pub fn sampler_z(mu: f64, sigma: f64, sigma_min: f64, rng: &mut dyn RngCore) -> i16 {
+    crate::samplerz::sampler_z(mu, sigma, sigma_min, rng)
+}
+
+pub fn base_sampler(bytes: [u8; 9]) -> i16 {
+    crate::samplerz::verif_access::base_sampler(bytes)
+}
+
+pub fn approx_exp(x: f64, ccs: f64) -> u64 {
+    crate::samplerz::verif_access::approx_exp(x, ccs)
+}
+
+pub fn ber_exp(x: f64, ccs: f64, random_bytes: [u8; 7]) -> bool {
+    crate::samplerz::verif_access::ber_exp(x, ccs, random_bytes)
+}
+
+pub fn hash_to_point(string: &[u8], n: usize) -> Vec<u32> {
+    crate::polynomial::hash_to_point(string, n)
+        .coefficients
+        .iter()
+        .map(|f| crate::falcon_field::verif_access::raw(*f))
+        .collect()
+}
+
+// --- Z_q ---
+
+fn felt(raw: u32) -> Felt {
+    crate::falcon_field::verif_access::from_raw(raw)
+}
+fn raw(f: Felt) -> u32 {
+    crate::falcon_field::verif_access::raw(f)
+}
+
+/// Raw inner value of `Felt::new(v)` (so a non-canonical representative is visible).
+pub fn felt_new(v: i16) -> u32 {
+    raw(Felt::new(v))
+}
+pub fn felt_add(a: u32, b: u32) -> u32 {
+    raw(felt(a) + felt(b))
+}
+pub fn felt_sub(a: u32, b: u32) -> u32 {
+    raw(felt(a) - felt(b))
+}
+pub fn felt_mul(a: u32, b: u32) -> u32 {
+    raw(felt(a) * felt(b))
+}
+pub fn felt_multiply(a: u32, b: u32) -> u32 {
+    raw(felt(a).multiply(felt(b)))
+}
+pub fn felt_neg(a: u32) -> u32 {
+    raw(-felt(a))
+}
+pub fn felt_inv(a: u32) -> u32 {
+    raw(felt(a).inverse_or_zero())
+}
+pub fn felt_value(a: u32) -> i16 {
+    felt(a).value()
+}
+pub fn felt_balanced(a: u32) -> i16 {
+    felt(a).balanced_value()
+}
+pub fn felt_batch_inv(a: &[u32]) -> Vec<u32> {
+    let v: Vec<Felt> = a.iter().map(|&x| felt(x)).collect();
+    Felt::batch_inverse_or_zero(&v).into_iter().map(raw).collect()
+}
+
+fn felt_poly(a: &[u32]) -> Polynomial<Felt> {
+    Polynomial::new(a.iter().map(|&x| felt(x)).collect())
+}
+fn felt_vec(p: Polynomial<Felt>) -> Vec<u32> {
+    p.coefficients.into_iter().map(raw).collect()
+}
+pub fn felt_fft(a: &[u32]) -> Vec<u32> {
+    felt_vec(felt_poly(a).fft())
+}
+pub fn felt_ifft(a: &[u32]) -> Vec<u32> {
+    felt_vec(felt_poly(a).ifft())
+}
+pub fn felt_hadamard_mul(a: &[u32], b: &[u32]) -> Vec<u32> {
+    felt_vec(felt_poly(a).hadamard_mul(&felt_poly(b)))
+}
+pub fn felt_hadamard_div(a: &[u32], b: &[u32]) -> Vec<u32> {
+    felt_vec(felt_poly(a).hadamard_div(&felt_poly(b)))
+}
+pub fn felt_split_fft(a: &[u32]) -> (Vec<u32>, Vec<u32>) {
+    let (x, y) = felt_poly(a).split_fft();
+    (felt_vec(x), felt_vec(y))
+}
+pub fn felt_merge_fft(a: &[u32], b: &[u32]) -> Vec<u32> {
+    felt_vec(Polynomial::<Felt>::merge_fft(&felt_poly(a), &felt_poly(b)))
+}
+/// (forward table, inverse table, [n^-1 for n = 1, 2, ..., 1024])
+pub fn felt_tables() -> (Vec<u32>, Vec<u32>, Vec<u32>) {
+    let (f, i, n) = crate::fast_fft::verif_access::felt_tables();
+    (
+        f.into_iter().map(raw).collect(),
+        i.into_iter().map(raw).collect(),
+        n.into_iter().map(raw).collect(),
+    )
+}
+
+// --- complex FFT ---
+
+fn cpoly(a: &[(f64, f64)]) -> Polynomial<Complex64> {
+    Polynomial::new(a.iter().map(|&(re, im)| Complex64::new(re, im)).collect())
+}
+fn cvec(p: Polynomial<Complex64>) -> Vec<(f64, f64)> {
+    p.coefficients.into_iter().map(|c| (c.re, c.im)).collect()
+}
+pub fn complex_fft(a: &[(f64, f64)]) -> Vec<(f64, f64)> {
+    cvec(cpoly(a).fft())
+}
+pub fn complex_ifft(a: &[(f64, f64)]) -> Vec<(f64, f64)> {
+    cvec(cpoly(a).ifft())
+}
+pub fn complex_hadamard_mul(a: &[(f64, f64)], b: &[(f64, f64)]) -> Vec<(f64, f64)> {
+    cvec(cpoly(a).hadamard_mul(&cpoly(b)))
+}
+pub fn complex_split_fft(a: &[(f64, f64)]) -> (Vec<(f64, f64)>, Vec<(f64, f64)>) {
+    let (x, y) = cpoly(a).split_fft();
+    (cvec(x), cvec(y))
+}
+pub fn complex_merge_fft(a: &[(f64, f64)], b: &[(f64, f64)]) -> Vec<(f64, f64)> {
+    cvec(Polynomial::<Complex64>::merge_fft(&cpoly(a), &cpoly(b)))
+}
+pub fn complex_table() -> Vec<(f64, f64)> {
+    crate::fast_fft::verif_access::complex_table()
+        .into_iter()
+        .map(|c| (c.re, c.im))
+        .collect()
+}
+
+// --- keys ---
+
+/// The secret basis rows as stored: [g, -f, G, -F].
+pub fn sk_basis<const N: usize>(sk: &SecretKey<N>) -> [Vec<i16>; 4] {
+    crate::falcon::verif_access::sk_b0(sk).map(|p| p.coefficients)
+}
+
+/// One node of a signing tree in pre-order.
+#[derive(Debug, Clone, PartialEq)]
+pub enum TreeNode {
+    /// the `ell` polynomial of a branch, FFT representation
+    Branch(Vec<(f64, f64)>),
+    /// the two stored complex values of a leaf
+    Leaf([(f64, f64); 2]),
+}
+
+fn dump_tree(tree: &LdlTree, out: &mut Vec<TreeNode>) {
+    match tree {
+        LdlTree::Branch(ell, left, right) => {
+            out.push(TreeNode::Branch(
+                ell.coefficients.iter().map(|c| (c.re, c.im)).collect(),
+            ));
+            dump_tree(left, out);
+            dump_tree(right, out);
+        }
+        LdlTree::Leaf(v) => out.push(TreeNode::Leaf([(v[0].re, v[0].im), (v[1].re, v[1].im)])),
+    }
+}
+
+/// The signing tree of a key in pre-order (branch, left subtree, right subtree).
+pub fn sk_tree<const N: usize>(sk: &SecretKey<N>) -> Vec<TreeNode> {
+    let mut out = Vec::new();
+    dump_tree(crate::falcon::verif_access::sk_tree(sk), &mut out);
+    out
+}
+
+/// Build a secret key object directly from basis rows [g, -f, G, -F] (what
+/// `SecretKey::from_b0` does), bypassing key generation.
+pub fn sk_from_basis<const N: usize>(b0: [Vec<i16>; 4]) -> SecretKey<N> {
+    SecretKey::<N>::from_b0(b0.map(Polynomial::new))
+}
+
+/// What key generation computes before the tree is built: [g, -f, G, -F].
+pub fn gen_basis<const N: usize>(seed: [u8; 32]) -> [Vec<i16>; 4] {
+    SecretKey::<N>::gen_b0(seed).map(|p| p.coefficients)
+}
+
+/// Raw inner values of the public polynomial h.
+pub fn pk_h<const N: usize>(pk: &PublicKey<N>) -> Vec<u32> {
+    crate::falcon::verif_access::pk_h(pk)
+        .coefficients
+        .iter()
+        .map(|f| raw(*f))
+        .collect()
+}
+
+fn build_tree(b0: &[Vec<i16>; 4], sigma: f64) -> LdlTree {
+    let b0_fft = b0
+        .clone()
+        .map(|c| Polynomial::new(c.iter().map(|&cc| Complex64::new(cc as f64, 0.0)).collect()).fft());
+    let g0_fft = gram(b0_fft);
+    let mut tree = ffldl(g0_fft);
+    normalize_tree(&mut tree, sigma);
+    tree
+}
+
+/// gram + ffldl + normalize_tree for a basis of any power-of-two degree >= 2, dumped
+/// in pre-order.
+pub fn tree_from_basis(b0: &[Vec<i16>; 4], sigma: f64) -> Vec<TreeNode> {
+    let mut out = Vec::new();
+    dump_tree(&build_tree(b0, sigma), &mut out);
+    out
+}
+
+/// ffSampling with a tree built from `b0` for any power-of-two degree >= 2.
+pub fn ffsampling_small(
+    t0: &[(f64, f64)],
+    t1: &[(f64, f64)],
+    b0: &[Vec<i16>; 4],
+    sigma: f64,
+    sigmin: f64,
+    rng: &mut dyn RngCore,
+) -> (Vec<(f64, f64)>, Vec<(f64, f64)>) {
+    let tree = build_tree(b0, sigma);
+    let params = FalconParameters {
+        n: b0[0].len(),
+        sigma,
+        sigmin,
+        sig_bound: 0,
+        sig_bytelen: 0,
+    };
+    let z = crate::ffsampling::ffsampling(&(cpoly(t0), cpoly(t1)), &tree, &params, rng);
+    (cvec(z.0), cvec(z.1))
+}
+
+/// (n, sigma, sigmin, sig_bound, sig_bytelen) of a variant.
+pub fn parameters(n: usize) -> (usize, f64, f64, i64, usize) {
+    let p = match n {
+        512 => crate::falcon::FalconVariant::Falcon512.parameters(),
+        1024 => crate::falcon::FalconVariant::Falcon1024.parameters(),
+        _ => panic!("no such variant"),
+    };
+    (p.n, p.sigma, p.sigmin, p.sig_bound, p.sig_bytelen)
+}
+
+// --- U32Field (multi-modular arithmetic used by babai_reduce_i32) ---
+
+pub fn u32field_new(v: i32) -> u32 {
+    crate::u32_field::U32Field::new(v).0
+}
+pub fn u32field_balanced(a: u32) -> i32 {
+    crate::u32_field::U32Field(a).balanced_value()
+}
+pub fn u32field_mul(a: u32, b: u32) -> u32 {
+    (crate::u32_field::U32Field(a) * crate::u32_field::U32Field(b)).0
+}
+pub fn u32field_add(a: u32, b: u32) -> u32 {
+    (crate::u32_field::U32Field(a) + crate::u32_field::U32Field(b)).0
+}
+pub fn u32field_sub(a: u32, b: u32) -> u32 {
+    (crate::u32_field::U32Field(a) - crate::u32_field::U32Field(b)).0
+}
